@@ -54,6 +54,26 @@ def sim_scens(ctx, cfg, n, depth=41, kinds_cycle=True):
     return out
 
 
+GOALS = ["NotG1", "NotG2", "NotG3", "NotG4", "NotG5", "NotG6", "NotG7", "NotG8", "NotG9", "NotG10"]
+
+
+def witness_scens(ctx, producers=("simple", "erroring"), repeat=6):
+    """One shortest behaviour per reachability goal (TLC 'violates' the negated goal), repeated because the free-running
+    continuation after the witness is scheduled by the Go runtime."""
+    out = []
+    for prod in producers:
+        for g in GOALS:
+            cfgtxt = ("SPECIFICATION Spec\nCONSTANTS Stoppers = {\"s1\", \"s2\"}\n Clients = {\"c1\", \"c2\"}\n ProducerKind = \"%s\"\n MaxBlocks = 2\n"
+                      " MaxRuns = 2\n StartMayFail = {}\n RPCLayer = TRUE\n StaleFlag = FALSE\n DoubleSend = FALSE\n SharedWaitGroup = FALSE\n"
+                      " Replayable = TRUE\nINVARIANTS %s\nCHECK_DEADLOCK FALSE\n" % (prod, g))
+            r = vlib.run_tlc(ctx, "Lifecycle", "Blank.cfg", workers=8, extra_files={"Blank.cfg": cfgtxt}, timeout=600)
+            if r.violated:
+                steps = [obs_from_state(st) for st in r.error_trace if "act" in st]
+                sc = scen_from_steps(steps, prod, "witness:%s:%s" % (g, prod))
+                out.extend([sc] * repeat)
+    return out
+
+
 def run_driver(ctx, scens, tag="t"):
     sp = ctx.path("scen_%s.json" % tag)
     json.dump(scens, open(sp, "w"))
